@@ -129,6 +129,10 @@ class C07(Prop):
             r = {'ok': {'files': r['ok']['files'][:2]}}
         return r
 
+    def project(self, case, out):
+        from harness.common import code_projection
+        return code_projection(out)
+
     def shape(self, case, impl_out):
         return canon([case['src'], case['cfg']])
 
